@@ -149,39 +149,50 @@ func (s *backendStorageStatic) RemoveBackendsForHost(host string) {
 }
 
 func (s *backendStorageStatic) UpsertHost(host string, backends []*Backend) {
-	for existingIndex, existingBackend := range s.backends[host] {
-		found := false
-		index := 0
-		for _, newBackend := range backends {
-			if reflect.DeepEqual(existingBackend, newBackend) { // otherwise we could manually compare the struct members here
-				found = true
-				backends = append(backends[:index], backends[index+1:]...)
-				break
-			} else if newBackend.id == existingBackend.id {
-				found = true
-				s.backends[host][existingIndex] = newBackend
-				backends = append(backends[:index], backends[index+1:]...)
-				log.Printf("Backend %s updated for %s", newBackend.id, newBackend.url)
-				updateBackendStats(newBackend)
+	existing := s.backends[host]
+	// Build the new list in the configured order (same as on startup): unchanged
+	// backends keep their existing object, changed ones are replaced.
+	result := make([]*Backend, 0, len(backends))
+	added := 0
+	for _, newBackend := range backends {
+		var existingBackend *Backend
+		for _, entry := range existing {
+			if entry.id == newBackend.id {
+				existingBackend = entry
 				break
 			}
-			index++
+		}
+
+		if existingBackend == nil {
+			log.Printf("Backend %s added for %s", newBackend.id, newBackend.url)
+			updateBackendStats(newBackend)
+			added++
+		} else if reflect.DeepEqual(existingBackend, newBackend) { // otherwise we could manually compare the struct members here
+			newBackend = existingBackend
+		} else {
+			log.Printf("Backend %s updated for %s", newBackend.id, newBackend.url)
+			updateBackendStats(newBackend)
+		}
+		result = append(result, newBackend)
+	}
+
+	for _, removed := range existing {
+		found := false
+		for _, entry := range result {
+			if entry.id == removed.id {
+				found = true
+				break
+			}
 		}
 		if !found {
-			removed := s.backends[host][existingIndex]
 			log.Printf("Backend %s removed for %s", removed.id, removed.url)
-			s.backends[host] = append(s.backends[host][:existingIndex], s.backends[host][existingIndex+1:]...)
 			deleteBackendStats(removed)
 			statsBackendsCurrent.Dec()
 		}
 	}
 
-	s.backends[host] = append(s.backends[host], backends...)
-	for _, added := range backends {
-		log.Printf("Backend %s added for %s", added.id, added.url)
-		updateBackendStats(added)
-	}
-	statsBackendsCurrent.Add(float64(len(backends)))
+	s.backends[host] = result
+	statsBackendsCurrent.Add(float64(added))
 }
 
 func getConfiguredBackendIDs(backendIds string) (ids []string) {
